@@ -53,6 +53,12 @@ def build_cases(tier, rng):
             out.append((f"verify {s} pure bytes:{fpk0.hex()} {hx(fmsg)} - {fsig0.hex()}", 'forgery with hints at coefficients 0 and 255 of every polynomial', ('verify', s, fpk0, fmsg, fsig0, b'', 'pure'), ok0))
             for tag, sg in fam.hint_section_mutations(rng, p, fsig0):
                 out.append((f"verify {s} pure bytes:{fpk0.hex()} {hx(fmsg)} - {sg.hex()}", 'malformed hint (forged, index 0 present): ' + tag, ('verify', s, fpk0, fmsg, sg, b'', 'pure'), False))
+            # w' = A z does not depend on the challenge under this key: a changed byte of c~ can only be caught by the final comparison,
+            # so a comparison over a prefix / whole words / a subset of the commitment hash accepts one of these
+            lam4 = p['lam'] // 4
+            for bi in range(lam4):
+                sg = bytearray(fsig0); sg[bi] ^= 1 << (bi % 8)
+                out.append((f"verify {s} pure bytes:{fpk0.hex()} {hx(fmsg)} - {bytes(sg).hex()}", 'forgery with one changed byte of c-tilde (challenge-independent key)', ('verify', s, fpk0, fmsg, bytes(sg), b'', 'pure'), False))
         # the same for a forged signature whose hints sit in the first polynomial only (empty interior and last polynomials: a decoder
         # that treats a zero count as "nothing to do" accepts a count reset to zero there)
         he = [[1 if (i == 0 and j in (3, 7)) else 0 for j in range(256)] for i in range(p['k'])]
